@@ -1100,3 +1100,28 @@ func enumerateOrchestrated(ctx *seq.Ctx) {
 		}
 	}
 }
+
+// debugDump prints what a case observed (VERIF_ISO_DEBUG=1 with -case <id>)
+func debugDump(p *opipe, per []map[int]oDecoded, metrics map[string]float64) {
+	for _, st := range p.stages {
+		fmt.Fprintf(os.Stderr, "pipeline id=%q tag=%q chunks per output:", st.idSnap, st.tagSnp)
+		for o := range st.chunks {
+			fmt.Fprintf(os.Stderr, " %d", len(st.chunks[o]))
+		}
+		fmt.Fprintln(os.Stderr)
+	}
+	for o := range per {
+		idxs := []int{}
+		for i := range per[o] {
+			idxs = append(idxs, i)
+		}
+		sort.Ints(idxs)
+		for _, i := range idxs {
+			fmt.Fprintf(os.Stderr, "output %d record #%d pipeline %q tag %q: %s\n", o, i, per[o][i].stage.idSnap, per[o][i].tag, clip(per[o][i].d.render(true)))
+		}
+	}
+	for _, k := range sortedKeys(metrics) {
+		fmt.Fprintf(os.Stderr, "metric %s = %v\n", k, metrics[k])
+	}
+	fmt.Fprintf(os.Stderr, "reused records %d, reused buffers %d, chunks %d\n", p.recHits, p.bufHits, p.nChunks)
+}
